@@ -27,6 +27,7 @@ func main() {
 	mode := flag.String("mode", "err", "err|true|false|all (debug)")
 	atoms := flag.String("atoms", "", "comma separated pkg.Func atoms (debug)")
 	noEvidence := flag.Bool("no-evidence", false, "do not write evidence (self-test runs)")
+	genAnchors := flag.Bool("gen-anchors", false, "print the structural locator table of the unexported helpers of -repo (maintenance: internal/load/anchors.json)")
 	flag.Parse()
 	start := time.Now()
 	if *tier == "" {
@@ -50,6 +51,20 @@ func main() {
 		*prop = rp.Property
 		fmt.Printf("replaying %s (%s) on the current tree\n", rp.Key, rp.Property)
 		*noEvidence = true
+	}
+	if *genAnchors {
+		p, err := load.Load(load.Config{Dir: *repo, GOOS: "linux", GOARCH: "amd64"})
+		if err != nil {
+			fmt.Fprintln(os.Stderr, err)
+			os.Exit(2)
+		}
+		b, err := p.GenAnchors()
+		if err != nil {
+			fmt.Fprintln(os.Stderr, err)
+			os.Exit(2)
+		}
+		fmt.Println(string(b))
+		return
 	}
 	if *dump != "" {
 		debugDump(*repo, *dump, *assume, *mode, *atoms)
